@@ -14,4 +14,10 @@ mkdir -p ../bin
 if [ -f model.ml ]; then
   ocamlfind ocamlopt -O3 -w -a -o ../bin/lasmodel model.mli model.ml driver.ml 2>/dev/null || ocamlfind ocamlopt -w -a -o ../bin/lasmodel model.mli model.ml driver.ml
 fi
+for d in */; do
+  d="${d%/}"
+  if [ -f "$d/model.ml" ] && [ -f "$d/driver.ml" ]; then
+    (cd "$d" && (ocamlfind ocamlopt -O3 -w -a -o ../../bin/lasmodel_$d model.mli model.ml driver.ml 2>/dev/null || ocamlfind ocamlopt -w -a -o ../../bin/lasmodel_$d model.mli model.ml driver.ml))
+  fi
+done
 echo "setup done"
